@@ -729,4 +729,10 @@ def check(model, rep):
                '%s composes a pose through %s (line %s): the accumulated joint / tool pose is rebuilt from its axis-angle vector and is only accurate to ~1e-5 near a half turn'
                % (fi_.qualname, norm_text(bad_[0].func) if bad_ else '', bad_[0].lineno if bad_ else ''), line=bad_[0].lineno if bad_ else None)
     rep.count('R13.8 loader functions scanned', n_lf)
+    # ---------------------------------------------------------------- R13.9
+    # Arm.FK wraps the joint vector through fsr.angleMod in place before the product of exponentials: joint values beyond one turn (limits
+    # such as +-6.98 rad are written in URDF files) must come out congruent modulo 2*pi
+    rep.rule('R13.9', 'the angle wrap Arm.FK applies to the joint vector (fsr.angleMod and its siblings) replaces an angle by its remainder modulo 2*pi only')
+    from .c18 import wrap_store_rule as _wsr13
+    _wsr13(model, rep, 'R13.9')
 
